@@ -200,7 +200,16 @@ Definition oprep := option (str * pword).
 Definition oprep_str (p : oprep) : str :=
   match p with None => [] | Some (w, pw) => w ++ pword_str pw end.
 
+(** A remainder word: "remaining" / "remainder" / "rest" (index 0..2) or
+    "left over" (any horizontal space, also none, between the two), any letter case. *)
+Inductive rword := RwWord (k : nat) (m : str) | RwLeftOver (l w o : str).
+Definition rword_str (rw : rword) : str :=
+  match rw with RwWord _ m => m | RwLeftOver l w o => l ++ w ++ o end.
+Definition rword_target (k : nat) : str :=
+  match k with O => s "remaining" | S O => s "remainder" | _ => s "rest" end.
+
 Inductive amt :=
+| AmRem (rw : rword) (p : oprep)                            (* rest of the 'sauce' *)
 | AmNum (t : ntext)                                         (* 2 'eggs' : unit-less quantity *)
 | AmUnit (t : ntext) (sp : str) (n v : str) (p : oprep)     (* 2 kg of the 'flour' : unit NAME [n] spelled [v] *)
 | AmOf (t : ntext) (w : str) (pw : pword)                   (* 1/2 of the 'sauce' *)
@@ -208,22 +217,29 @@ Inductive amt :=
 | AmStar (t : ntext) (w : str).                             (* 1/2 * 'sauce' *)
 
 Definition amt_num (a : amt) : ntext :=
-  match a with AmNum t | AmUnit t _ _ _ _ | AmOf t _ _ | AmPercent t _ _ | AmStar t _ => t end.
+  match a with
+  | AmNum t | AmUnit t _ _ _ _ | AmOf t _ _ | AmPercent t _ _ | AmStar t _ => t
+  | AmRem _ _ => NTInt 0 0       (* unused *)
+  end.
+Definition amt_lead (a : amt) : str :=
+  match a with AmRem rw _ => rword_str rw | _ => ntext_str (amt_num a) end.
 Definition amt_tail (a : amt) : str :=
   match a with
+  | AmRem _ p => oprep_str p
   | AmNum _ => []
   | AmUnit _ sp _ v p => sp ++ v ++ oprep_str p
   | AmOf _ w pw => w ++ pword_str pw
   | AmPercent _ w p => w ++ 37 :: oprep_str p
   | AmStar _ w => w ++ [42]
   end.
-Definition print_amt (a : amt) : str := ntext_str (amt_num a) ++ amt_tail a.
+Definition print_amt (a : amt) : str := amt_lead a ++ amt_tail a.
 
 Definition percent_of (v : num) : num :=
   match ndiv v (NInt 100) with NOk q => q | _ => NInt 0 end.
 
 Definition amt_val (a : amt) : amount :=
   match a with
+  | AmRem rw p => AProp (PropRem (rword_str rw) (oprep_str p))
   | AmNum t => AQty (mkQ (ntext_val t) None [] [])
   | AmUnit t sp _ v p => AQty (mkQ (ntext_val t) (Some v) sp (oprep_str p))
   | AmOf t w pw => AProp (PropVal (ntext_val t) false (w ++ pword_str pw))
@@ -270,9 +286,28 @@ Definition unit_ok (n v : str) : bool :=
 Definition tail_text_ok (T : str) : bool :=
   forallb naked_mid T && (is_nil T || negb (is_ws (last T 0))).
 
+Definition naked_textb (A : str) : bool :=
+  match A with
+  | c0 :: A' => naked_edge c0 && forallb naked_mid A' && negb (is_ws (last A 0))
+  | [] => false
+  end.
+
+Definition rword_ok (rw : rword) : bool :=
+  match rw with
+  | RwWord k m => Nat.ltb k 3 && ci_wordb (rword_target k) m
+  | RwLeftOver l w o => ci_wordb (s "left") l && hsp_run w && ci_wordb (s "over") o
+  end.
+
+Definition lead_ok (a : amt) : bool :=
+  match a with
+  | AmRem rw _ => rword_ok rw && naked_textb (rword_str rw)
+  | _ => ntext_ok (amt_num a)
+  end.
+
 Definition amt_ok (a : amt) : bool :=
-  ntext_ok (amt_num a) && tail_text_ok (amt_tail a)
+  lead_ok a && tail_text_ok (amt_tail a)
   && match a with
+     | AmRem _ p => oprep_ok p
      | AmNum _ => true
      | AmUnit _ sp n v p => hsp_run sp && unit_ok n v && oprep_ok p
      | AmOf _ w pw => hsp_run w && negb (is_nil w) && pword_ok pw
